@@ -415,9 +415,18 @@ func (r *replica) executeWithApiReader(ev *pb.CommitEvent, watchdog time.Duratio
 			r.lg.GetNonce(a)                               // eth_getTransactionCount
 		}
 		if ar.contract != nil {
-			r.lg.GetCode(ar.contract) // eth_getCode
-			for _, k := range ar.keys {
-				r.lg.GetState(ar.contract, []byte(k)) // eth_getStorageAt
+			// which of the contract's queries this client sends: only its balance and nonce (eth_getBalance of a contract
+			// address: the account object is loaded and its code is not asked for), only code and records, or all of them
+			mode := ar.rnd.Intn(3)
+			if mode != 1 {
+				r.lg.Copy().GetOrCreateAccount(ar.contract).GetBalance()
+				r.lg.GetNonce(ar.contract)
+			}
+			if mode != 0 {
+				r.lg.GetCode(ar.contract) // eth_getCode
+				for _, k := range ar.keys {
+					r.lg.GetState(ar.contract, []byte(k)) // eth_getStorageAt
+				}
 			}
 		}
 		ar.landed = append(ar.landed, fmt.Sprintf("%s#%d", site, idx))
